@@ -106,6 +106,13 @@ def run(ctx: Ctx) -> None:
         ok = ("line.startswith('#line')", "T") in deps and not any("keep" in c for c, _ in deps)
     ctx.ob("R19.3", "preprocessor:_pcpp_filter|every marker's file is recorded as a dependency (kept or not)", ok, msg="dependencies are recorded only for some markers", node=pf, mod=pp)
 
+    # ---------------------------------------------------------------- R19.4
+    # "reported line numbers still refer to the main file": the filters keep the line
+    # markers (R19.2) and the lexer re-bases on them; the re-basing arithmetic is C10's
+    # R10.3, evaluated here under this property's id.
+    from . import c10
+    from ..report import SubCtx
+    c10.run(SubCtx(ctx, {"R10.3": ("R19.4", "line markers kept by the filters are honoured: line_offset = physical lineno - N + 1, file name from the same match")}))  # type: ignore[arg-type]
 
 def mod_parent(mod, node):
     return mod.parent.get(node) or node
